@@ -22,7 +22,7 @@ fn thread_call(rng: &mut Rng, tid: usize, sc: &mut Scenario, have_files: &mut bo
         }
         _ => gen::lib_program(rng),
     };
-    let api = match rng.below(14) {
+    let api = match rng.below(16) {
         0..=4 => Api::ParseSvStr,
         5 => Api::PreprocessStr,
         6 => Api::ParseLibStr,
@@ -33,22 +33,25 @@ fn thread_call(rng: &mut Rng, tid: usize, sc: &mut Scenario, have_files: &mut bo
         _ => Api::ParseSv,
     };
     if api.reads_file() {
-        // one shared file system; conditions are static and keyed by path
-        if !*have_files {
+        // one shared file system. Half of the time all threads work on the same project; otherwise every
+        // thread has its own project whose headers carry the SAME names but different content, found
+        // through its own search directories - a process-wide cache keyed by name would mix them up
+        let own = sc.expect["own_projects"].as_bool().unwrap_or(false);
+        let key = if own { format!("p{}", tid) } else { "shared".to_string() };
+        if sc.expect["projects"].get(&key).is_none() {
             let prog = gen::pp_program(rng, 3, false);
-            sc.vfs.extend(prog.nodes);
-            sc.expect = serde_json::json!({ "include_paths": prog.include_paths });
+            let prog = if own { gen::relocate(prog, &format!("/t{}", tid), &format!("T{}", tid)) } else { prog };
+            sc.vfs.extend(prog.nodes.clone());
+            sc.expect["projects"][&key] = serde_json::json!({ "include_paths": prog.include_paths, "top": if own { prog.top.clone() } else { "top.sv".to_string() }, "files": prog.files });
             *have_files = true;
         }
-        let incs: Vec<String> = sc.expect["include_paths"]
-            .as_array()
-            .map(|a| a.iter().filter_map(|x| x.as_str().map(|s| s.to_string())).collect())
-            .unwrap_or_default();
-        let mut c = Call::new(*rng.pick(&[Api::ParseSv, Api::Preprocess, Api::ParseSvPp]), "top.sv");
-        c.include_paths = incs;
+        let proj = sc.expect["projects"][&key].clone();
+        let strs = |v: &serde_json::Value| -> Vec<String> { v.as_array().map(|a| a.iter().filter_map(|x| x.as_str().map(|s| s.to_string())).collect()).unwrap_or_default() };
+        let mut c = Call::new(*rng.pick(&[Api::ParseSv, Api::Preprocess, Api::ParseSvPp]), proj["top"].as_str().unwrap_or("top.sv"));
+        c.include_paths = strs(&proj["include_paths"]);
         c.hash_seed = rng.next();
         if rng.chance(1, 4) {
-            let files: Vec<String> = sc.vfs.iter().map(|n| n.path().to_string()).filter(|p| p.ends_with(".svh")).collect();
+            let files: Vec<String> = strs(&proj["files"]).into_iter().filter(|p| p.ends_with(".svh")).collect();
             if !files.is_empty() {
                 c.faults.push(Fault {
                     path: rng.pick(&files).clone(),
@@ -121,6 +124,7 @@ impl Property for C19 {
         let mut sc = Scenario::new("C19", seed, run, tier);
         let n = 2 + rng.usize_below(3);
         let mut have_files = false;
+        sc.expect = serde_json::json!({ "own_projects": rng.coin(), "projects": {} });
         let mut threads: Vec<Vec<Op>> = vec![];
         for tid in 0..n {
             let k = 1 + rng.usize_below(3);
